@@ -107,7 +107,23 @@ def dOpts : Sexp → Option (List Str)
   | .list (.atom "opts" :: l) => l.mapM fun o =>
     match o with
     | .list [.atom "o", n] => dStr n
+    -- the number written on the option (`option X { number = 5 }`) is carried by the source definition and
+    -- never read by the compiler: options are numbered by position
+    | .list [.atom "o", n, k] => do let _ ← dNat k; dStr n
     | _ => none
+  | _ => none
+
+/-- an entity status: a bare name, or `(o NAME N)` when the source states a number (ignored, as for options) -/
+def dStatus : Sexp → Option Str
+  | .list [.atom "o", n, k] => do let _ ← dNat k; dStr n
+  | s => dStr s
+
+def dPsm : Sexp → Option Psm
+  | .list [.atom "psm", e, .atom p] => do
+    let part ← match p with
+      | "keys" => some EntityPart.keys | "state" => some .state | "event" => some .event | "data" => some .data
+      | _ => none
+    some { entity := ← dStr e, part := part }
   | _ => none
 
 def dEnum (name pfx opts : Sexp) : Option EnumDecl := do
@@ -161,13 +177,14 @@ partial def dProps (head : String) : Sexp → Option (List Property)
 end
 
 mutual
-partial def dObjDecl (name props nested : Sexp) : Option ObjDecl := do
+partial def dObjDecl (name props nested : Sexp) (psm : Option Psm := none) : Option ObjDecl := do
   let nested ← match nested with
     | .list (.atom "nested" :: l) => l.mapM dNested
     | _ => none
-  some (.mk (← dStr name) (← dProps "props" props) nested none)
+  some (.mk (← dStr name) (← dProps "props" props) nested psm)
 partial def dNested : Sexp → Option Nested
   | .list [.atom "object", n, ps, ne] => (dObjDecl n ps ne).map .object
+  | .list [.atom "object", n, ps, ne, psm] => do some (.object (← dObjDecl n ps ne (some (← dPsm psm))))
   | .list [.atom "oneof", n, ps, ne] => (dObjDecl n ps ne).map .oneof
   | .list [.atom "enum", n, pfx, opts] => (dEnum n pfx opts).map .enum
   | _ => none
@@ -233,12 +250,13 @@ def dEntity : Sexp → Option Entity
         some (some ({ eventsInGet := ← dBool eg, filters := ← fs.mapM dStr } : EntityQuery))
       | _ => none
     some { name := ← dStr n, baseUrl := ← dStr base, keys := keys, data := ← dProps "data" data,
-           statuses := ← sts.mapM dStr, events := events, commands := ← cmds.mapM dService,
+           statuses := ← sts.mapM dStatus, events := events, commands := ← cmds.mapM dService,
            summaries := summaries, query := query, nested := ← ne.mapM dNested }
   | _ => none
 
 def dElem : Sexp → Option Elem
   | .list [.atom "object", n, ps, ne] => (dObjDecl n ps ne).map .object
+  | .list [.atom "object", n, ps, ne, psm] => do some (.object (← dObjDecl n ps ne (some (← dPsm psm))))
   | .list [.atom "oneof", n, ps, ne] => (dObjDecl n ps ne).map .oneof
   | .list [.atom "enum", n, pfx, opts] => (dEnum n pfx opts).map .enum
   | s@(.list (.atom "service" :: _)) => (dService s).map .service
@@ -308,6 +326,9 @@ def dEdits : Sexp → Option (List Edit)
     | .list [.atom "appendfield", f, p, prop] => do
       some (.appendField (← dNat f) (← dPath p) (← dProp prop))
     | .list [.atom "appendoption", f, p, n] => do
+      some (.appendOption (← dNat f) (← dPath p) (← dStr n))
+    | .list [.atom "appendoption", f, p, n, k] => do
+      let _ ← dNat k
       some (.appendOption (← dNat f) (← dPath p) (← dStr n))
     | .list [.atom "appenddecl", f, el] => do some (.appendDecl (← dNat f) (← dElem el))
     | _ => none
